@@ -23,6 +23,12 @@ def run(ctx):
         dscommon.run_family(ctx, "C01Clim", fmt="text", limit=200, fresh=False)
         # the same cases for every input also under a date / hour-of-day / time selection on files that list their times in different orders
         dscommon.run_family(ctx, "C02Sel", fmt="netcdf", limit=150)
+        # requests that name OTHER fields (quantiles, another score column) together with obs / fcst: every requested field in every input
+        dscommon.run_family(ctx, "C01Extra", fmt="text", always_nontrivial=True)
+        dscommon.run_family(ctx, "C01Extra", fmt="text", fresh=False, always_nontrivial=True)
+        # scores of several quantities (obs, fcst, two quantiles): each takes the cases in which every quantity IT uses is present
+        from harness.checks import c08
+        c08._run(ctx, "quant", "small", limit=500)
         ctx.exhaustive = False
     else:
         dscommon.run_family(ctx, "C01Full", fmt="text", timeout_s=1500)
@@ -36,5 +42,9 @@ def run(ctx):
         dscommon.run_family(ctx, "C01NoObs", fmt="text", fresh=False)
         dscommon.run_family(ctx, "C01Quick", fmt="netcdf")
         dscommon.run_family(ctx, "C02Sel", fmt="netcdf")
+        dscommon.run_family(ctx, "C01Extra", fmt="text", always_nontrivial=True)
+        dscommon.run_family(ctx, "C01Extra", fmt="text", fresh=False, always_nontrivial=True)
+        from harness.checks import c08
+        c08._run(ctx, "quant", "small")
         ctx.exhaustive = True
     par.clean_workdirs()
